@@ -1,5 +1,6 @@
 (* The property's executable statement, evaluated on (case, implementation result) by the extracted driver.
-   Known-finding classes: 1 = C17-noconv-unsorted-map, 2 = C17-plutus-map-empty-values. *)
+   Known-finding classes: 1 = C17-noconv-unsorted-map, 2 = C17-plutus-map-empty-values,
+   3 = C17-plutus-script-language-lost, 4 = C17-metadatum-int-below-i64-min (typed observation stream). *)
 From CSL Require Import Base.Prelude Base.Hex Json.Decimal Json.Json Json.MetadataJson Json.Chunks Json.PlutusJson Json.SerdeForms.
 Local Open Scope N_scope.
 
@@ -86,7 +87,21 @@ Definition judge_sfs (t : sform) (v : sval) (r1 : result json) (r2 : option (res
        | _, _ => Fails 0
        end.
 
-(* typed values (observation): the value that came back round-trips exactly, content is equal up to map
-   order, and equal bytes imply equal values *)
-Definition judge_ty (eq bytes norm fx : bool) : verdict :=
-  if fx && norm && (negb bytes || eq) then Holds else Fails 0.
+(* typed values (observation stream): x = from_bytes(case), y = from_json(to_json(x)).
+   [first]: 0 = to_json and from_json succeeded, 1 = to_json failed, 2 = from_json failed.
+   - y (maps filled in ascending order, default encodings) must round-trip exactly ([fx]);
+   - x == y, or x and y differ only in the order of map entries ([norm]: premise of the property not met), or
+     the difference is explained by a known class: 3 = C17-plutus-script-language-lost (x holds a Plutus V2/V3 script:
+     the JSON form of a PlutusScript is its bytes only), 4 = C17-metadatum-int-below-i64-min (to_json fails). *)
+Definition judge_ty (first : N) (eq bytes norm fx lang negint : bool) : verdict :=
+  match first with
+  | 0 =>
+      if negb fx then Fails 0
+      else if eq then Holds
+      else if bytes then Fails 0          (* same bytes but not == *)
+      else if norm then NA
+      else if lang then Fails 3
+      else Fails 0
+  | 1 => if negint then Fails 4 else Fails 0
+  | _ => Fails 0
+  end.
